@@ -185,7 +185,11 @@ func (r *Run) Sample(v interface{}) {
 func (r *Run) SampleN() int { r.mu.Lock(); defer r.mu.Unlock(); return len(r.samples) }
 
 // Inconclusive records a reason the run could not decide.
-func (r *Run) Inconclusive(why string) { r.mu.Lock(); r.inconcl = append(r.inconcl, why); r.mu.Unlock() }
+func (r *Run) Inconclusive(why string) {
+	r.mu.Lock()
+	r.inconcl = append(r.inconcl, why)
+	r.mu.Unlock()
+}
 
 // IsOpen tells whether an open known finding with that key is listed for this property.
 func (r *Run) IsOpen(key string) bool { _, ok := r.open[key]; return ok }
